@@ -37,7 +37,7 @@ def normalise(text, kind):
 @st.composite
 def case(draw, tier="quick"):
     spec = draw(gen_atoms.typed_structure(min_atoms=1, max_atoms=8 if tier == "quick" else 30, max_terms=6,
-                                          cell="any-or-none", extras=False,
+                                          cell="any-or-none", extras=False, dups=True,
                                           coords=draw(st.sampled_from(["in-cell", "anywhere"]))))
     # many types: up to 12 rows in a table (two-digit ids)
     if draw(st.integers(0, 3)) == 0:
